@@ -49,7 +49,9 @@ V2 == V1 \cup { [k |-> "list", es |-> <<x>>] : x \in V1 \ V0 }
 
 T0 == { [t |-> "null"], [t |-> "bool"], [t |-> "int"], [t |-> "flt"], [t |-> "str"], [t |-> "any"], [t |-> "anyobj"] }
 ObjTypesOver(S) == UNION { { [t |-> "obj", ks |-> ks, ts |-> ts] : ts \in [1..Len(ks) -> S] } : ks \in FieldSets }
-T1 == T0 \cup { [t |-> "list", e |-> x] : x \in T0 } \cup { [t |-> "opt", e |-> x] : x \in T0 } \cup ObjTypesOver(T0)
+\* (object types also with optional fields: a field that may be none is still a field that must be there)
+T1 == T0 \cup { [t |-> "list", e |-> x] : x \in T0 } \cup { [t |-> "opt", e |-> x] : x \in T0 }
+         \cup ObjTypesOver(T0 \cup { [t |-> "opt", e |-> [t |-> "int"]], [t |-> "opt", e |-> [t |-> "str"]] })
 T2 == T1 \cup { [t |-> "list", e |-> x] : x \in T1 \ T0 } \cup { [t |-> "opt", e |-> x] : x \in T1 \ T0 }
          \cup { [t |-> "obj", ks |-> <<"a">>, ts |-> <<x>>] : x \in T1 \ T0 }
 
